@@ -107,6 +107,9 @@ class Face(ElementBase):
         self.points.reverse()
         self.edges.reverse()
         self.edges = [self.edges[i] for i in (1, 2, 3, 0)]
+        # every edge now runs the other way
+        for edge in self.edges:
+            edge.reverse()
 
         return self
 
